@@ -177,11 +177,14 @@ func (s *Stream) LogRequest(id string, req *http.Request) error {
 		}
 	}
 
-	req.Body = &bodyLogger{
-		s:    s,
-		id:   id,
-		mt:   Request,
-		body: req.Body,
+	// Leave absent bodies alone: wrapping them changes how the request is framed.
+	if req.Body != nil && req.Body != http.NoBody {
+		req.Body = &bodyLogger{
+			s:    s,
+			id:   id,
+			mt:   Request,
+			body: req.Body,
+		}
 	}
 
 	return nil
